@@ -148,6 +148,13 @@ def _cluster(rng, n, m, arrangement):
             b = (t0 + k * (w + 5.0), t0 + k * (w + 5.0) + w, f0, f1)
         elif arrangement == "duplicates":
             b = base
+        elif arrangement == "covers":
+            # one long source covering several short targets and vice versa: every geometry overlaps
+            # something, but no complete overlapping pairing exists
+            if is_src:
+                b = (t0, t0 + 4 * w, f0, f1) if idx == 0 else (t0 + 10 * w + (idx - 1) * 1.5 * w, t0 + 10 * w + (idx - 1) * 1.5 * w + w, f0, f1)
+            else:
+                b = (t0 + 10 * w, t0 + 10 * w + 1.5 * w * max(1, n), f0, f1) if idx == 0 else (t0 + (idx - 1) * 1.5 * w, t0 + (idx - 1) * 1.5 * w + w, f0, f1)
         elif arrangement == "mixed":
             r = rng.random()
             if r < 0.4:
@@ -186,7 +193,7 @@ def run(ctx):
         judge(ctx, ss, ts, 0.01, 100.0)
 
     reps = ctx.scale(10, 30)
-    arrangements = ["chain", "ties", "disjoint", "duplicates", "mixed", "random"]
+    arrangements = ["chain", "ties", "disjoint", "duplicates", "mixed", "random", "covers"]
     for rep in range(reps):
         for n in range(0, 7):
             for m in range(0, 7):
